@@ -221,6 +221,29 @@ CLAIMED['C08'] = (
     'Tolerances 1e-7 closed forms, 1e-5 whitened (scipy cg), 1e-4 interpolation, 1e-3 BFGS on a fixed sample; three open known '
     'findings.', '4/C08 and notes/C08.md')
 
+CLAIMED['C01'] = (
+    'TLA+ staged model CalcRdm.tla (Average / Kernel / Build / SortAlpha / ListBranch / Movie over exact rationals) with '
+    'Symmetric, ZeroIffEqualMeans, LabelOrderSorted, EntryBelongsToLabels, ListAligned, MovieIsStack, PermInvariant checked by '
+    'TLC; exact vectors replayed into calc_rdm / calc_rdm_movie in all flavours; recorded calls recomputed by Trace_CalcRdm.tla',
+    'TLC enumerates every labelling of the observations (balanced or not, any order), integer data grids, the four methods with '
+    'integer SPD precisions and priors, remove_mean, single / list / movie modes, and emits the exact RDM keyed by label; every '
+    'vector is replayed through the public API in descriptor-container, label-type, dtype (incl. narrow ints), memory-layout and '
+    'single-vs-list flavours (exact for euclidean / mahalanobis, sufficient statistics + kernel for correlation and Poisson), a '
+    'float tier runs real-valued data per enumerated design, and random larger integer inputs are recorded and recomputed in TLC.',
+    'Bounded grids (<= 6 observations x 3 channels x 4 conditions); log / sqrt last steps in a kernel cross-checked against the '
+    'TLA+ values on every run.', '4/C01 and notes/C01.md')
+CLAIMED['C02'] = (
+    'TLA+ staged model CalcRdm.tla, cv mode (DefaultFolds / FoldMeans / PairProducts / AverageFoldPairs with a ghost bag of '
+    'contributing fold pairs): NoSelfPairs, AllFoldsUsed, EqualWeights, CoefWithinFoldZero, CvMatchesLeaveOneOut and invariance '
+    'under row permutation / fold relabelling / channel permutation checked by TLC; exact vectors replayed; coefficient '
+    'extraction on the bilinear estimator; recorded calls recomputed by Trace_CalcRdm.tla',
+    'TLC enumerates fold-balanced designs (2-3 conditions x 2-3 folds x 1-2 repetitions, all row orders, int/str labels, explicit or '
+    'default folds, identity / matrix / per-fold precisions) with the exact crossnobis and poisson_cv values; every vector is '
+    'replayed; on every enumerated design the coefficient of each product of two observations is MEASURED from the implementation '
+    '(d(e_o+e_p) - d(e_o) - d(e_p)) and compared with the coefficient matrix implied by the specification, so a within-fold '
+    'product with non-zero weight is a violation whatever the data.', 'Bounded grids; per-fold precisions diagonal in the exact '
+    'tier (general SPD lists in the float tier).', '4/C02 and notes/C02.md')
+
 NOT_YET = {
 }
 
